@@ -18,7 +18,7 @@ from ..model import AnalysisError, Func, norm_stmt, parent
 from ..pattern import C, G, V, add, call, div, match, mul, neg, norm
 from ..prov import content_sources
 from ..terms import Term, alts, contains, ends_with_attrs, root_of, show, subterms
-from ..util import calls_in, deep_subterms, nodes_in
+from ..util import calls_in, deep_subterms, guard_leaves, nodes_in
 from .common import EST, FILT, check_weights_pipeline, dispatch_table, estimator_sinks, weights_arg
 
 P = "C01"
@@ -243,67 +243,68 @@ def c01_4(ctx: Ctx) -> RuleResult:
     sites = [(f, c) for f, c in ctx.cg.callers(create) if f.module.name.startswith("ropt.ensemble_evaluator")]
     if not sites:
         raise AnalysisError("Functions.create call in the ensemble evaluator not found")
+    by_func: dict = {}
     for f, c in sites:
-        t = X.at(f, c)
-        kw = dict(t[3])
-        wo, ob = kw.get("weighted_objective"), kw.get("objectives")
-        if wo is None or ob is None:
-            raise AnalysisError("Functions.create is not called with weighted_objective= and objectives=")
-        walts = [norm(a) for a in alts(wo)]
+        by_func.setdefault(f.qualname, (f, []))[1].append(c)
+    for f, calls_ in by_func.values():
         W = V("w", lambda x: ends_with_attrs(x, "objectives", "weights"))
         O = V("o")
         ref1 = call("numpy.array", call("numpy.sum", mul(W, O)))
         ref2 = call("numpy.array", call("numpy.dot", W, O))
         ref3 = call("numpy.array", call("numpy.dot", O, W))
-        good, nan_alt, other = None, None, []
-        for a in walts:
-            m = match(a, ref1) or match(a, ref2) or match(a, ref3) or match(a, ref1[2][0]) or match(a, ref2[2][0])
-            if m is not None:
-                good = (a, m)
-            elif a == call("numpy.array", G("numpy.nan")) or a == G("numpy.nan") or a == call("numpy.array", G("numpy.NaN")):
-                nan_alt = a
-            else:
-                other.append(a)
-        ok = good is not None and not other
+        nan_forms = (call("numpy.array", G("numpy.nan")), G("numpy.nan"), call("numpy.array", G("numpy.NaN")), call("numpy.float64", G("numpy.nan")))
+        good, nan_alt, other = [], None, []
+        obs = []
+        first = calls_[0]
+        for c in calls_:
+            kw = dict(X.at(f, c)[3])
+            wo, ob = kw.get("weighted_objective"), kw.get("objectives")
+            if wo is None or ob is None:
+                raise AnalysisError("Functions.create is not called with weighted_objective= and objectives=")
+            obs.append(ob)
+            for a in (norm(a) for a in alts(wo)):
+                m = match(a, ref1) or match(a, ref2) or match(a, ref3) or match(a, ref1[2][0]) or match(a, ref2[2][0])
+                if m is not None:
+                    good.append((a, m, ob, c))
+                elif a in nan_forms:
+                    nan_alt = a
+                else:
+                    other.append(a)
+        ok = bool(good) and not other
         why = ""
-        if good is None:
-            why = f"weighted objective is `{show(wo, 120)}`, not sum(objective weights * objectives)"
+        if not good:
+            why = "the weighted objective is never sum(objective weights * objectives)"
         elif other:
             why = f"unexpected alternative `{show(other[0], 80)}`"
         if ok:
-            # the objectives multiplied are the objectives reported
-            o = good[1]["o"]
-            oalts = [norm(a) for a in alts(ob)]
-            ok = o in oalts
-            if not ok:
-                why = "the objectives that are weighted are not the objectives that are reported"
-            else:
+            for a, m, ob, c in good:
+                # the objectives multiplied are the objectives reported
+                o = m["o"]
+                oalts = [norm(a2) for a2 in alts(ob)]
+                if o not in oalts:
+                    ok, why = False, "the objectives that are weighted are not the objectives that are reported"
+                    break
                 est = [s for _g, s in deep_subterms(ctx, f, o, 3) if s[0] == "call" and s[1][0] == "attr" and s[1][2] == "calculate_function"]
-                ok = bool(est)
-                if not ok:
-                    why = "the weighted objectives do not come from the function estimators"
-        res.add(f, c, "weighted_objective == sum(config.objectives.weights * estimated objectives)", ok, why, construct=f"{f.name}: weighted objective")
+                if not est:
+                    ok, why = False, "the weighted objectives do not come from the function estimators"
+                    break
+        res.add(f, good[0][3] if good else first, "weighted_objective == sum(config.objectives.weights * estimated objectives)", ok, why, construct=f"{f.name}: weighted objective")
         # all-failed branch
         guard_ok = False
         for n in nodes_in(f, ast.If):
-            tt = norm(X.at(f, n.test))
+            tt = norm(X.value_at(f, n.test))
             if tt[0] == "call" and tt[1] == G("numpy.all") and any(s[0] == "param" and "failed" in s[2] for s in subterms(tt)):
-                # everything assigned in this branch is NaN
-                srcs_ok = True
-                for name, term in (("weighted_objective", wo), ("objectives", ob)):
-                    pass
                 guard_ok = True
-        nan_sources = True
-        if nan_alt is None:
-            nan_sources = False
-        else:
-            for a in alts(ob):
-                if a[0] == "mut" or (a[0] == "call" and a[1][0] == "global" and a[1][1].startswith("numpy.") and a[1][1].split(".")[-1] in ("empty", "full")):
-                    srcs = content_sources(ctx, f, a)
-                    if not srcs or not all(s.term == G("numpy.nan") for s in srcs if s.kind != "bool"):
-                        nan_sources = False
+        nan_sources = nan_alt is not None
+        if nan_sources:
+            for ob in obs:
+                for a in alts(ob):
+                    if a[0] == "mut" or (a[0] == "call" and a[1][0] == "global" and a[1][1].startswith("numpy.") and a[1][1].split(".")[-1] in ("empty", "full")):
+                        srcs = content_sources(ctx, f, a)
+                        if not srcs or not all(s.term == G("numpy.nan") for s in srcs if s.kind != "bool"):
+                            nan_sources = False
         ok = guard_ok and nan_sources
-        res.add(f, c, "when every realization failed, objectives, constraints and weighted objective are NaN (no value is invented)", ok,
+        res.add(f, first, "when every realization failed, objectives, constraints and weighted objective are NaN (no value is invented)", ok,
                 "" if ok else "the all-failed branch does not report NaN for every function value", construct=f"{f.name}: all-failed NaN")
     return res
 
@@ -418,7 +419,7 @@ def c01_6(ctx: Ctx) -> RuleResult:
             if r is None or fn is None or r[0] != "call":
                 continue
             rk = dict(r[3])
-            used = [a for a in alts(fn) if a[0] == "call"]
+            used = [a for _c, a in guard_leaves(fn, strip_wrappers=False) if a[0] == "call"]
             if not used:
                 continue
             n += 1
